@@ -562,7 +562,7 @@ def oracle_frames(in_tab, spec, base_lo, base_hi, extra_starts=()):
     return [(a, (starts[i + 1] - 1 if i + 1 < len(starts) else base_hi)) for i, a in enumerate(starts)]
 
 
-def judge_run(ctx: Ctx, case, m, spec, db, span, method, terminal, out, info, fo_out=None, vid=0, plan=None):
+def judge_run(ctx: Ctx, case, m, spec, db, span, method, terminal, out, info, fo_out=None, vid=0, plan=None, func_tol=0.0):
     """the property on one successful simulate() call (variant `vid` of the databoxes; `m` is a single-variant model with that
     variant's parameters; `plan` = swap points of a simulation plan); records failures with ctx.fail"""
     base_lo, base_hi = span[0].serial, span[-1].serial
@@ -582,7 +582,7 @@ def judge_run(ctx: Ctx, case, m, spec, db, span, method, terminal, out, info, fo
     params = dict(spec["params"])
     compiled = [compile_equation(e) for e in spec["eqs"]]
     scale = max([1.0] + [abs(v) for n in spec["tvars"] for v in out_tab.get(n, {}).values() if math.isfinite(v)])
-    tol = TOL * scale
+    tol = TOL * scale + 1.000001 * func_tol     # `func_tol`: the func_tolerance THIS call asked for, when it is not the default 1e-12
     n_checked = 0
 
     def same(a, b):
@@ -749,7 +749,42 @@ def same_databox_paths(a, b, names, span_full):
     return None
 
 
+# the distinct `solver_settings` of the nonlinear calls made so far in this process, in order: part of every failure payload, because a
+# failure may depend on what EARLIER calls in the process asked for (cross-call state); a replay makes these calls first
+PRIOR_SETTINGS: list = []
+
+
+def note_settings(kw):
+    st = kw.get("solver_settings")
+    if st is not None:
+        js = {k: (v if v != float("inf") else "inf") for k, v in st.items()}
+        if js not in PRIOR_SETTINGS:
+            PRIOR_SETTINGS.append(js)
+
+
+def replay_prior_calls(ctx, spec, sc, prior):
+    """the calls with other solver settings that preceded the failing one in its process (same process-wide state on replay)"""
+    m = build_model(spec)
+    if m is None or not prior:
+        return
+    db, span = build_db(spec, m, dict(sc, missing={}))
+    for js in prior:
+        st = {k: (float("inf") if v == "inf" else v) for k, v in js.items()}
+        try:
+            with quiet():
+                m.simulate(db, span, method="stacked_time", when_fails="silent", solver_settings=st)
+        except Exception as e:
+            ctx.count(f"replay:prior-call-raised:{type(e).__name__}")
+
+
+def attach_prior(ctx):
+    for f in ctx.failures:
+        if isinstance(f.get("case"), dict) and "prior_solver_settings" not in f["case"]:
+            f["case"]["prior_solver_settings"] = list(PRIOR_SETTINGS)
+
+
 def run_simulate(m, db, span, method, **kw):
+    note_settings(kw)
     with quiet():
         out, info = m.simulate(db, span, method=method, return_info=True, remove_terminal=False, when_fails="silent", **kw)
     ok = all(s.is_success for s in info["exit_status"])
@@ -786,7 +821,28 @@ def run_case(ctx: Ctx, spec, sc, lines_out=None, only_cfg=None):
         cfgs = [only_cfg]
     all_names = spec["tvars"] + spec["shocks"] + ["ant_" + s_ for s_ in spec["shocks"]] + spec["exo"] + (["obs"] if spec["meas"] else [])
     span_full = (span[0] + m.max_lag) >> (span[-1] + m.max_lead)
-    for cfg in cfgs:
+    loose_done = False
+    first_run = {}      # determinism: (configuration index) -> returned databox of its first run
+    if only_cfg is None:
+        cfgs = cfgs[:3] + [dict(loose=True)] + cfgs[3:] + [dict(cfgs[1], repeat_of=1), dict(cfgs[0], repeat_of=0)]
+    for cj, cfg in enumerate(cfgs):
+        if cfg.get("loose"):
+            # a call with NON-DEFAULT solver settings in the middle of the sequence (loose tolerance, hardly any iterations); judged at ITS
+            # tolerance if it reports success; every later call is judged at the default tolerance again
+            loose_done = True
+            ft = [0.5, 0.125, 1e-3][len(spec["eqs"]) % 3]
+            try:
+                out, info, ok = run_simulate(m, db, span, "stacked", terminal="first_order", initial_guess="data",
+                                             solver_settings={"func_tolerance": ft, "step_tolerance": float("inf"), "max_iterations": 2, "norm_order": float("inf")})
+                ctx.count("settings:loose-call")
+                if ok:
+                    judge_run(ctx, case_payload(spec, sc, dict(method="stacked_time", terminal="first_order", initial_guess="data", solver="loose", func_tolerance=ft)),
+                              m, spec, db, span, "stacked_time", "first_order", out, info, None, func_tol=ft)
+            except Exception as e:
+                ctx.count(f"run:loose:raised:{type(e).__name__}")
+            continue
+        if loose_done:
+            cfg["after_loose"] = True      # a replay of this configuration re-runs the whole sequence of calls of the case
         kw = {}
         spelling = cfg.get("spelling", cfg["method"])
         if cfg["method"] == "stacked_time":
@@ -802,6 +858,19 @@ def run_case(ctx: Ctx, spec, sc, lines_out=None, only_cfg=None):
             ctx.count(f"run:{cfg['method']}:raised:{type(e).__name__}")
             continue
         ctx.count(f"spelling:{spelling}")
+        # determinism across calls: the same call later in the sequence (after calls with other settings) returns the same databox
+        if "repeat_of" in cfg:
+            prev = first_run.get(cfg["repeat_of"])
+            if prev is not None:
+                ctx.count("settings:repeat-call-compared")
+                diff = None if prev[1] != ok else same_databox_paths(prev[0], out, all_names, span_full)
+                if prev[1] != ok or diff:
+                    ctx.fail("repeat-call-differs", case_payload(spec, sc, {k_: v_ for k_, v_ in cfg.items() if k_ != "repeat_of"}),
+                             f"the same simulate() call made twice in one process (other calls with other solver_settings in between) "
+                             + ("reports success once and failure once" if prev[1] != ok else f"returns different paths: {diff}"))
+                    continue
+        else:
+            first_run[cj if cj < 3 else cj - 1] = (out, ok)
         terminal = cfg.get("terminal", "data")
         key = f"{cfg['method']}:{terminal}:{cfg['initial_guess']}:{cfg['solver']}"
         # spelling equivalence: the same call through the other documented name of the method returns the same databox
@@ -870,6 +939,7 @@ def run_variant_case(ctx: Ctx, spec, scs, plan, only_cfg=None, model_nv=None):
         if cfg["method"] == "stacked_time":
             kw["terminal"] = cfg["terminal"]
         spelling = cfg.setdefault("spelling", SPELLINGS[cfg["method"]][(nv + len(scs[0]["unant"])) % 2])
+        note_settings(kw)
         try:
             with quiet():
                 out, info = m.simulate(db, span, method=spelling, plan=make_plan(m, span, plan) if plan else None,
@@ -986,6 +1056,13 @@ def run_history_case(ctx: Ctx, specs, sc, steps, only_cfg=None):
         if method == "period_by_period" and m.max_lead:
             method = "stacked_time"
         db, span = build_db(spec, m, sc)
+        if si in (1, 3):     # a call with loose solver settings between the steps; the steps themselves stay at the default tolerance
+            try:
+                run_simulate(m, db, span, method, initial_guess="data",
+                             solver_settings={"func_tolerance": 0.25, "step_tolerance": float("inf"), "max_iterations": 1})
+                ctx.count("settings:loose-call")
+            except Exception as e:
+                ctx.count(f"history:loose:raised:{type(e).__name__}")
         cfg = dict(method=method, terminal="first_order", initial_guess="first_order" if method == "stacked_time" else "data", solver="func-only")
         kw = {"initial_guess": cfg["initial_guess"], "solver_settings": {"max_iterations": MAX_ITER, "step_tolerance": float("inf")}}
         if method == "stacked_time":
@@ -1296,6 +1373,12 @@ def compare_items(ctx: Ctx, items, replies):
             else:
                 ctx.count(f"termlog:log-variable-reaches-back-{meta['loglag']}-columns")
             continue
+        if stream == "settings":
+            canon = lambda line: ",".join(f"{kv.split('=')[0]}={float(kv.split('=')[1])!r}" for kv in line.strip().split(",") if kv)
+            got = " | ".join(canon(x) for x in rep.split("|")) if rep != "bad-op" else rep
+            if got != impl:
+                ctx.disagree(stream, {"request": req}, impl, got)
+            continue
         if stream == "iguess":
             if rep == "bad-op":
                 ctx.disagree(stream, {"request": short}, "array expected", rep); continue
@@ -1539,6 +1622,48 @@ def glue_iguess_items(ctx: Ctx, rng, spec, sc):
     return items
 
 
+def glue_settings_item(ctx: Ctx, rng, spec, sc):
+    """a history of real simulate() calls with various `solver_settings`; observation = the settings `simulate_frame` hands to the solver
+    (the solver itself is replaced by a recorder for the duration of the history)"""
+    m = build_model(spec)
+    if m is None:
+        return []
+    db, span = build_db(spec, m, dict(sc, missing={}, unant={}))
+    pool = [("func_tolerance", ["0.5", "1e-06", "0.125"]), ("step_tolerance", ["inf", "1e-09"]), ("max_iterations", ["7", "60", "1"]), ("norm_order", ["2", "inf", "1"])]
+    calls, seen = [], []
+
+    def recorder(*, eval_func, eval_jacob, init_guess, iter_printer, args, **settings):
+        seen.append(",".join(f"{k}={v}" for k, v in settings.items()))
+        return init_guess, _nq.ExitStatus.SUCCESS
+
+    real = _st._nq.damped_newton
+    _st._nq.damped_newton = recorder
+    try:
+        for _ in range(rng.randint(3, 6)):
+            if rng.chance(0.35):
+                custom = None
+            else:
+                custom = {k: rng.choice(vs) for k, vs in rng.sample(pool, rng.randint(1, 3))}
+            calls.append(custom)
+            n0 = len(seen)
+            with quiet():
+                m.simulate(db, span, method=rng.choice(["stacked_time", "stacked", "period_by_period"]) if not m.max_lead else rng.choice(["stacked_time", "stacked"]),
+                           when_fails="silent", **({} if custom is None else {"solver_settings": {k: float(v) if k != "max_iterations" else int(v) for k, v in custom.items()}}))
+            seen[n0:] = seen[n0:n0 + 1]         # one observation per call (every frame of a call gets the same settings)
+    except Exception as e:
+        ctx.count(f"settings:impl-raised:{type(e).__name__}")
+        return []
+    finally:
+        _st._nq.damped_newton = real
+    def norm(v):
+        return repr(float(v)) if v not in ("7", "60", "1") else v
+    txt = lambda v: "inf" if v == "inf" else v
+    req = f"settings {len(calls)} " + " ".join("none" if c is None else f"{len(c)} " + " ".join(f"{k} {txt(v)}" for k, v in c.items()) for c in calls)
+    # canonical value text on both sides: the implementation's floats are printed by Python, the request carries the generator's text
+    canon = lambda line: ",".join(f"{kv.split('=')[0]}={float(kv.split('=')[1])!r}" for kv in line.split(",") if kv)
+    return [("settings", req, " | ".join(canon(x) for x in seen), None)]
+
+
 FINDING_PREFIX = "+ + + n v 0 0 * c 1/2 v 0 -1 v 3 0 + v 1 0 v 2 0"
 
 
@@ -1598,7 +1723,7 @@ def replay_corpus(ctx: Ctx):
             elif "scenarios" in case:
                 run_variant_case(ctx, case["spec"], case["scenarios"], case.get("plan"), only_cfg=case.get("config"), model_nv=case.get("model_variants"))
             else:
-                run_case(ctx, case["spec"], case["scenario"], only_cfg=case.get("config"))
+                run_case(ctx, case["spec"], case["scenario"], only_cfg=None if (case.get("config") or {}).get("after_loose") else case.get("config"))
             ctx.count("corpus:replayed")
         except Exception as e:
             ctx.count(f"corpus:raised:{type(e).__name__}")
@@ -1679,6 +1804,11 @@ def run(ctx: Ctx):
         rng = ctx.rng.fork(f"glue{i}")
         try:
             items += glue_pair_item(ctx, rng.fork("pair"), gen_spec(rng, ["lin-b", "poly-b", "solow"][i % 3]))
+            if i % 3 == 0:
+                sp_ = gen_spec(rng, ["lin-b", "poly-f", "solow"][(i // 3) % 3])
+                m_ = build_model(sp_)
+                if m_ is not None:
+                    items += glue_settings_item(ctx, rng.fork("settings"), sp_, gen_scenario(rng, sp_, m_, not sp_["linear"]))
             if i % 2 == 1:
                 sp_ = gen_spec(rng, ["lin-f", "lin-b", "poly-f"][(i // 2) % 3])
                 m_ = build_model(sp_)
@@ -1707,6 +1837,7 @@ def run(ctx: Ctx):
                 items.append(it)
     except Exception as e:
         ctx.count(f"glue:finding-raised:{type(e).__name__}")
+    attach_prior(ctx)
     replies = ctx.model("C06", [it[1] for it in items])
     compare_items(ctx, items, replies)
     ctx.extra["programs"] = sum(v for k, v in ctx.counts.items() if k.startswith("model:"))
@@ -1732,17 +1863,23 @@ def search(ctx: Ctx, seeds):
         except Exception as e:
             ctx.count(f"search:raised:{type(e).__name__}")
         if ctx.failures:
+            attach_prior(ctx)
             return
 
 
 def replay(ctx: Ctx, payload):
     case = payload.get("case", payload)
+    if isinstance(case, dict) and case.get("prior_solver_settings"):
+        spec0 = case["history"][0] if "history" in case else case.get("spec")
+        sc0 = case.get("scenario") or (case.get("scenarios") or [None])[0]
+        if spec0 and sc0:
+            replay_prior_calls(ctx, spec0, sc0, case["prior_solver_settings"])
     if isinstance(case, dict) and "history" in case:
         run_history_case(ctx, case["history"], case["scenario"], case["steps"])
     elif isinstance(case, dict) and "scenarios" in case:
         run_variant_case(ctx, case["spec"], case["scenarios"], case.get("plan"), only_cfg=case.get("config"), model_nv=case.get("model_variants"))
     elif isinstance(case, dict) and "spec" in case:
-        run_case(ctx, case["spec"], case["scenario"], only_cfg=case.get("config"))
+        run_case(ctx, case["spec"], case["scenario"], only_cfg=None if (case.get("config") or {}).get("after_loose") else case.get("config"))
         rng = ctx.rng.fork("replay")
         items = lean_lines_for_case(ctx, case["spec"], case["scenario"], rng)
         compare_items(ctx, items, ctx.model("C06", [it[1] for it in items]))
